@@ -556,3 +556,34 @@ def flag_reachable_blocks(fn, start_bb, avoid=(), init_env=None):
                 out.add(n)
                 st.append(ns)
     return out
+
+
+def strip_reborrow(e):
+    """&*x -> x (repeatedly)"""
+    while True:
+        if e[0] == "ref" and e[1][0] == "place" and e[1][2] == ["deref"]:
+            e = e[1][1]
+            continue
+        return e
+
+
+def borrowed_local(fn, op, depth=8):
+    """if the operand is (a reborrow/move chain of) `&local` or `&mut local`: that local, else None"""
+    l = is_local(op)
+    while l is not None and depth > 0:
+        depth -= 1
+        ds = defs_of_local(fn, l)
+        if len(ds) != 1 or ds[0][0] != "stmt":
+            return None
+        rv = ds[0][3]["rv"]
+        if rv["k"] == "use":
+            l = is_local(rv["a"])
+            continue
+        if rv["k"] == "ref":
+            if not rv["p"]["p"]:
+                return rv["p"]["l"]
+            if rv["p"]["p"] == [{"k": "deref"}]:
+                l = rv["p"]["l"]
+                continue
+        return None
+    return None
